@@ -85,3 +85,69 @@ comparison_create = FunctionSpec(
          "needs that rows present in one set only carry identity 0 (established by alignment1Only / alignment2Only)")
 
 SPECS += [comparison_create]
+
+
+# ------------------------------------------------------------------ AlignmentRowComparer.compare (glue: which list goes into which measure)
+RCMP = OBJ('AlignmentRowComparer')
+ALN = OBJ('BionanoAlignment')
+
+combine = FunctionSpec(
+    file=F, qualname='AlignmentRowComparer.__combineMultipleQuerySources', params=dict(self=RCMP, pairs=LIST(BP), otherPairs=LIST(BP)), returns=LIST(BP),
+    trusted=True, serves=('C19',),
+    ensures=lambda C, res: [('no_more_pairs_than_given', res.len <= C.pairs.len),
+                            ('pairs_unchanged_when_sources_are_not_combined', z3.Implies(z3.Not(C.self.combineMultipleQuerySources), same_list(res, C.pairs)))],
+    note="ASSUMED (groupby / `in` over dataclass equality): a sub-list of the pairs; the pairs themselves when sources are not combined; bounded by the C19 monitor")
+difference = FunctionSpec(
+    file=F, qualname='AlignmentRowComparer.__getDifference', params=dict(pairs=LIST(BP), otherPairs=LIST(BP)), returns=LIST(BP), trusted=True, serves=('C19',),
+    ensures=lambda C, res: [('no_more_exclusive_pairs_than_pairs', res.len <= C.pairs.len)],
+    note="ASSUMED (set difference, sorted): the distinct pairs of the first list that are not in the second - at most as many as the first list has")
+identity = FunctionSpec(
+    file=F, qualname='AlignmentRowComparer.__getIdentityRatio', params=dict(alignment1Pairs=LIST(BP), alignment2Pairs=LIST(BP)), returns=REAL, trusted=True,
+    serves=('C19',), ensures=lambda C, res: [('identity_between_0_and_1', z3.And(0 <= res, res <= 1))],
+    note="ASSUMED (difflib.SequenceMatcher.ratio): a value in [0,1]")
+
+
+def _log_call(prefix):
+    def h(L):
+        L.set(prefix + '_a', L._st.lst(L.callargs[0]))
+        L.set(prefix + '_b', L._st.lst(L.callargs[1]))
+        r = L.result
+        if hasattr(r, 'v'):
+            L.set(prefix + '_r', L._st.lst(r.v))
+    return h
+
+
+def _cmp_ensures(C, res):
+    e = C._e
+    cl = [('a_row_for_a_key_present_in_both_sets', res.type == _enum(e, 'BOTH')),
+          ('the_two_alignments_are_kept_in_order', z3.And(res.alignment1.ref == C.alignment1.ref, res.alignment2.ref == C.alignment2.ref)),
+          ('measures_between_0_and_1', z3.And(0 <= res.identity, res.identity <= 1, 0 <= res.alignment1Coverage, res.alignment1Coverage <= 1,
+                                             0 <= res.alignment2Coverage, res.alignment2Coverage <= 1))]
+    if C.proving:
+        F_ = C.F
+        cl += [('first_list_is_alignment_1_combined_against_alignment_2_and_vice_versa', z3.And(
+                    same_list(F_.cb1_a, C.alignment1.alignedPairs), same_list(F_.cb1_b, C.alignment2.alignedPairs),
+                    same_list(F_.cb2_a, C.alignment2.alignedPairs), same_list(F_.cb2_b, C.alignment1.alignedPairs))),
+               ('exclusive_pairs_are_differences_of_the_combined_lists_each_against_the_other', z3.And(
+                   same_list(F_.df1_a, F_.cb1_r), same_list(F_.df1_b, F_.cb2_r), same_list(F_.df2_a, F_.cb2_r), same_list(F_.df2_b, F_.cb1_r))),
+               ('each_coverage_is_computed_from_its_own_combined_list_and_its_own_exclusive_pairs', z3.And(
+                   same_list(F_.cv1_a, F_.cb1_r), same_list(F_.cv1_b, F_.df1_r), same_list(F_.cv2_a, F_.cb2_r), same_list(F_.cv2_b, F_.df2_r))),
+               ('identity_compares_the_two_combined_lists', z3.And(same_list(F_.id_a, F_.cb1_r), same_list(F_.id_b, F_.cb2_r))),
+               ('exclusive_pairs_and_coverages_are_stored_under_their_own_alignment', z3.And(
+                   same_list(res.alignment1ExclusivePairs, F_.df1_r), same_list(res.alignment2ExclusivePairs, F_.df2_r)))]
+    return cl
+
+
+_gl = lambda C: C._e.fresh_list(BP, 'g', n=z3.IntVal(0))
+row_compare = FunctionSpec(
+    file=F, qualname='AlignmentRowComparer.compare', params=dict(self=RCMP, alignment1=ALN, alignment2=ALN), returns=RC, ensures=_cmp_ensures,
+    ghost={n: _gl for p in ('cb1', 'cb2', 'df1', 'df2', 'cv1', 'cv2', 'id') for n in (p + '_a', p + '_b', p + '_r')},
+    ghost_at={'call:__combineMultipleQuerySources#0': _log_call('cb1'), 'call:__combineMultipleQuerySources#1': _log_call('cb2'),
+              'call:__getDifference#0': _log_call('df1'), 'call:__getCoverage#0': _log_call('cv1'),
+              'call:__getDifference#1': _log_call('df2'), 'call:__getCoverage#1': _log_call('cv2'), 'call:__getIdentityRatio#0': _log_call('id')},
+    serves=('C19',),
+    note="the comparison of two alignments of one key: which list goes into which measure (call-site ghosts) - each alignment's pairs are combined against the "
+         "other's, exclusive pairs are the differences of the combined lists, each coverage uses its OWN combined list and exclusive pairs (precondition of the "
+         "coverage formula discharged here), identity compares the two combined lists; all three measures lie in [0,1]")
+
+SPECS += [combine, difference, identity, row_compare]
